@@ -9,7 +9,7 @@ Lemma ext_get_qm_undefined z off w : w = 0 \/ 8 < w -> ext_get_quick_medium z of
 Proof.
   intros [->|H]; [reflexivity|].
   destruct w as [|p]; [lia|].
-  unfold ext_get_quick_medium, ext_get.
+  unfold ext_get_quick_medium, split_ext_get.
   do 4 (destruct p as [p|p|]; try lia); reflexivity.
 Qed.
 
